@@ -78,23 +78,23 @@ theorem boundary_is_a_race :
     hasLab .err (trace (fresh .v4 5000 0) [.advance 5000, .fire, .advance 5000, .fire, .pingresp]) = true := by
   decide
 
-/-- C18.4 (MQTT 3.1.1 client) "with keep-alive zero it never pings": no PINGREQ and no
-    keep-alive error in any run of the v4 loop with keep-alive 0. This is the `_partial` form of
-    the clause: the hypothesis `ver = v4` excludes exactly the trigger of `zero_busy_pings_v5`. -/
-theorem zero_never_pings_partial (s : TState) (evs : List Ev) (hv : s.ver = .v4) (hk : s.keepAlive = 0) :
+/-- C18.4 "with keep-alive zero it never pings": no PINGREQ and no keep-alive error in any run
+    of either loop (MQTT 3.1.1 and MQTT 5) whose effective keep-alive is 0 — whatever state it
+    starts from, across reconnects, with any traffic. (Full strength since the repair of the
+    MQTT 5 loop, which used to arm `sleep(0)`; the monitor `c18-zero-pings` watches the
+    implementation for a regression.) -/
+theorem zero_never_pings (s : TState) (evs : List Ev) (hk : s.keepAlive = 0) :
     hasLab .ping (trace s evs) = false ∧ hasLab .err (trace s evs) = false := by
-  have h := zero_v4_gen evs s hv hk
+  have h := zero_gen evs s hk
   constructor <;>
   · rw [h]; simp only [hasLab, List.any_eq_false, List.mem_filter]
     intro x hx; have := hx.2; simp at this; simp [this]
 
-/-- C18.4 is FALSE for the MQTT 5 loop as written: `poll()` arms `sleep(keep_alive)` and
-    `select!` polls it without the `!keep_alive.is_zero()` guard the v4 loop has. With an
-    effective keep-alive of 0 the client writes a PINGREQ the instant the CONNACK is read and
-    reports AwaitPingResp on the very next poll (same virtual instant). Witness on the model;
-    reproduced on the real loop (`vh cloop`, case family `zero5`), recorded in KNOWN_FINDINGS. -/
-theorem zero_busy_pings_v5 :
-    trace (idle .v5 0 0) [.connack, .fire, .fire] = [(0, .ping), (0, .err)] := by
+/-- regression example for the repaired defect: an MQTT 5 loop whose broker answered with
+    `server_keep_alive = 0` stays silent and connected, however long it is polled -/
+theorem zero_v5_stays_quiet :
+    trace (idle .v5 0 0) [.connack, .fire, .advance 100000, .fire, .other, .fire] = [] ∧
+    (run (idle .v5 0 0) [.connack, .fire, .advance 100000, .fire, .other, .fire]).connected = true := by
   decide
 
 /-- how a v5 loop gets a zero keep-alive: the setter refuses anything below 5 s, so the only way
